@@ -435,6 +435,21 @@ func (g *gen) variants(tag string) []variant {
 	})
 	add("modified file body", G, "", &apkfile{Label: "genuine control + data with one body altered", ctlOf: G, datOf: Mb})
 	add("modified file body, whole package rebuilt", G, "", whole("package rebuilt around an altered body", Mb))
+	// two regular files of one length: genuinely identical copies (fine), and a second
+	// file whose header BORROWS the recorded checksum of the first while its body differs
+	// (a per-package "already verified this digest" shortcut would let it through)
+	Dup := mk("twin-files", "G", func(p *synthrepo.Pkg) {
+		p.Files = append(p.Files, synthrepo.File{Name: "usr/tool.copy", Mode: 0o755, Content: []byte("#!/bin/sh\necho G/" + tag + "\n")})
+	})
+	add("indexed package ships two identical files", Dup, "", whole("as indexed", Dup))
+	Bor := mk("borrowed-sum", "G", func(p *synthrepo.Pkg) {
+		body := []byte("#!/bin/sh\necho G/" + tag + "\n")
+		alt := append([]byte{}, body...)
+		alt[len(alt)-2] ^= 1
+		p.Files = append(p.Files, synthrepo.File{Name: "usr/tool.copy", Mode: 0o755, Content: alt, RawChecksum: hex.EncodeToString(sha1sum(body))})
+	})
+	add("second file borrows the recorded checksum of an earlier file of the same length", Dup, "", &apkfile{Label: "genuine control + data whose second copy is altered under the first copy's checksum", ctlOf: Dup, datOf: Bor})
+	add("indexed package: second file borrows the checksum of an earlier one", Bor, "", whole("as indexed", Bor))
 	Mc := mk("bad-sum", "G", func(p *synthrepo.Pkg) { p.Files[3].BadChecksum = true })
 	add("modified per-file checksum", G, "", &apkfile{Label: "genuine control + data with one recorded checksum altered", ctlOf: G, datOf: Mc})
 	Nc := mk("no-sum", "G", func(p *synthrepo.Pkg) { p.Files[3].NoChecksum = true })
